@@ -1,6 +1,6 @@
 """C10 — PRT sprite metadata round-trips and always satisfies its cross-field rules."""
 from ..extract import AnalysisBroken
-from ..facts import CALLS, fmt_term
+from ..facts import CALLS, CTORS, fmt_term
 from ..flow import Engine, Summaries, final_site_facts, fmt_fact
 from ..report import ok, bad
 from ..rules_layout import r_layout
@@ -89,6 +89,19 @@ def element_of(fn, t, container):
     return False
 
 
+def element_of_any(fn, t, container):
+    """element_of, also for by-value / const-reference range-for variables (reading an element)."""
+    if element_of(fn, t, container):
+        return True
+    if t[0] == "var":
+        for lp in fn.nodes:
+            if lp["k"] == "CXXForRangeStmt":
+                v, d = loopvar(fn, lp)
+                if v == t and fn.term(lp["range"]) == container:
+                    return True
+    return False
+
+
 def palette_swaps(F, S):
     out = []
     rp = F.fn(A + "::ReadPalette", nparams=2)
@@ -111,7 +124,38 @@ def palette_swaps(F, S):
     req = "each palette is written with red and blue exchanged exactly once, on a by-value copy (the in-memory object is not altered)"
     good = len(sw) == 1 and sw[0][1][0] == "var"
     detail = "%d swapped containers" % len(sw)
-    if good:
+    conv_ok = False
+    if not sw:
+        # form 2: what is written is h(element) for a converter h that swaps its by-value parameter once and returns it
+        pals_this = ("mem", ("this",), "palettes")
+        for nd in wp.nodes:
+            if nd["k"] == "CXXMemberCallExpr" and nd.get("fname") == "Write" and nd.get("args"):
+                a0 = wp.n(wp.strip(nd["args"][0]))
+                if a0["k"] == "DeclRefExpr":
+                    # a never-reassigned local initialised from the converter call
+                    for dn in wp.nodes:
+                        if dn["k"] == "DeclStmt":
+                            for d in dn.get("decls", []):
+                                if ("var", d.get("n"), d.get("d")) == wp.term(a0["id"]) and "init" in d:
+                                    x = d["init"]
+                                    while wp.n(x)["k"] in CTORS and wp.n(x).get("copy_or_move") and wp.n(x).get("args"):
+                                        x = wp.strip(wp.n(x)["args"][0])
+                                    a0 = wp.n(wp.strip(x))
+                if a0["k"] in CALLS and len(a0.get("args", [])) == 1:
+                    for h in F.callees(a0):
+                        if not h.cfg or len(h.params) != 1 or h.params[0].get("ref"):
+                            continue
+                        hp = ("var", h.params[0]["n"], h.params[0]["d"])
+                        hs = swapped_containers(F, h, depth=0)
+                        rets_h = returns(h)
+                        if len(hs) == 1 and hs[0][1] == hp and rets_h and all(h.term(r["value"]) == hp for r in rets_h) \
+                                and element_of_any(wp, wp.term(a0["args"][0]), pals_this):
+                            conv_ok = True
+                            conv_site = nd
+        if conv_ok:
+            good = True
+            detail = "the palette written is a converter's by-value copy of a stored palette, swapped once inside the converter"
+    if good and not conv_ok:
         R = sw[0][1]
         decl = None
         src = None
@@ -136,7 +180,7 @@ def palette_swaps(F, S):
         good = by_value and from_member and len(writes) == 1 and writes[0]["id"] > sw[0][0]["id"]
         detail = "swapped object is a by-value copy: %s; copied from the stored palette: %s; written after the swap: %s" % (by_value, from_member, len(writes) == 1)
     if good:
-        out.append(ok("R-MUSTCALL", inst, wp.loc(sw[0][0]["id"]), wp.qn, req, detail))
+        out.append(ok("R-MUSTCALL", inst, wp.loc((conv_site if conv_ok else sw[0][0])["id"]), wp.qn, req, detail))
     else:
         out.append(bad("R-MUSTCALL", inst, wp.loc(wp.body), wp.qn, req, detail))
     return out
